@@ -112,6 +112,24 @@ def g_ff(rng, angular=False):
     return [f, f]
 
 
+def g_dm(rng):
+    """score differences for diebold_mariano: series along 't' (order matters: positional), one series per label of 'l',
+    the lead time h as a coordinate along 'l'"""
+    nl, nt = rng.randint(2, 3), rng.randint(5, 8)
+    f = gens.rand_da(rng, {"l": nl, "t": nt}, dims=["l", "t"], lo=-3, hi=4, den=2, nan_p=0.1, shuffle=False)
+    vals = f.values.copy()
+    for i in range(nl):                      # at least four valid values per series, not all equal
+        row = vals[i]
+        bad = np.isnan(row)
+        if (~bad).sum() < 4:
+            row[bad] = 0.5
+        if len(set(row[~np.isnan(row)])) < 2:
+            row[0] = row[0] + 1.0 if not np.isnan(row[0]) else 1.0
+    f = f.copy(data=vals).assign_coords(l=rng.sample(range(10), nl))
+    f = f.assign_coords(h=("l", [rng.randint(1, 2) for _ in range(nl)]))
+    return [f]
+
+
 def g_iso(rng):
     sizes = {"a": rng.randint(2, 3), "b": rng.randint(2, 3)}
     f = gens.rand_da(rng, sizes, lo=0, hi=3, den=1, nan_p=0.1)
@@ -132,6 +150,7 @@ def recipes():
     from scores.spatial import fss_2d
     from scores.emerging import risk_matrix_score
     from scores.processing.cdf import cdf_envelope
+    from scores.stats.statistical_tests import diebold_mariano as DM
     dw = xr.DataArray([[1.0, 2.0], [0.5, 1.0]], dims=["pt", "sev"], coords={"pt": [0.25, 0.75], "sev": [0, 1]})
     R = [
         Recipe("mse", g_point, lambda x, **k: C.mse(x[0], x[1], **k), dataset=C.mse, weights=True, obs_extra=True),
@@ -160,10 +179,13 @@ def recipes():
         Recipe("roc_curve_data", g_prob, lambda x, **k: P.roc_curve_data(x[0], x[1], [0, 0.25, 0.5, 0.75, 1], **k), lazy=False, weights=True, kind="ratio", obs_extra=True),
         Recipe("roc_curve_data_unchecked", g_prob, lambda x, **k: P.roc_curve_data(x[0], x[1], [0, 0.25, 0.5, 0.75, 1], check_args=False, **k), lazy=False, weights=True, kind="ratio", obs_extra=True),
         Recipe("binary_discretise_proportion", g_point, lambda x, **k: PR.binary_discretise_proportion(x[0], [1, 2], ">=", **k)),
-        Recipe("contingency_table", g_point, lambda x, **k: K.ThresholdEventOperator().make_contingency_manager(x[0], x[1], event_threshold=2).transform(**k).get_table(), lazy=False, obs_extra=True),
+        Recipe("binary_discretise_proportion_autosqueeze", g_point, lambda x, **k: PR.binary_discretise_proportion(x[0], [2], ">", autosqueeze=True, **k)),
+        Recipe("proportion_exceeding_scalar", g_point, lambda x, **k: PR.proportion_exceeding(x[0], 2.0, **k)),
+        Recipe("proportion_exceeding", g_point, lambda x, **k: PR.proportion_exceeding(x[0], [0.5, 2.5], **k), keeps=["threshold"]),
+        Recipe("contingency_table", g_point, lambda x, **k: K.ThresholdEventOperator().make_contingency_manager(x[0], x[1], event_threshold=2).transform(**k).get_table(), lazy=False, obs_extra=True, dataset=True),
         Recipe("contingency_table_two_step", g_point,
                lambda x, **k: K.BinaryContingencyManager(*K.ThresholdEventOperator().make_event_tables(x[0], x[1], event_threshold=2)).transform(**k).get_table(),
-               lazy=False, obs_extra=True),
+               lazy=False, obs_extra=True, dataset=True),
         Recipe("crps_for_ensemble", g_ens, lambda x, **k: P.crps_for_ensemble(x[0], x[1], "m", include_components=True, **k), fixed=[], weights=True, specific=["m"], fwd_weights=True),
         Recipe("crps_for_ensemble_fair", g_ens, lambda x, **k: P.crps_for_ensemble(x[0], x[1], "m", method="fair", **k), weights=True, specific=["m"], fwd_weights=True),
         Recipe("tail_tw_crps_for_ensemble", g_ens, lambda x, **k: P.tail_tw_crps_for_ensemble(x[0], x[1], "m", 2.0, **k), weights=True, specific=["m"], fwd_weights=True),
@@ -180,6 +202,8 @@ def recipes():
                dims_kw=False, dask=False, lazy=False),
         Recipe("isotonic_fit_median", g_iso, lambda x, **k: iso_result(Sc.processing.isoreg_impl.isotonic_fit(x[0], x[1], functional="quantile", quantile_level=0.5)),
                dims_kw=False, dask=False, lazy=False),
+        Recipe("diebold_mariano_hln", g_dm, lambda x, **k: DM(x[0], "l", "h", method="HLN", statistic_distribution="t"), fixed=["t"], dims_kw=False, dask=False, lazy=False, dtypes=False),
+        Recipe("diebold_mariano_hg", g_dm, lambda x, **k: DM(x[0], "l", "h", method="HG"), fixed=["t"], dims_kw=False, dask=False, lazy=False, dtypes=False),
         Recipe("flip_flop_index", g_ff, lambda x, **k: C.flip_flop_index(x[0], "t"), fixed=["t"], dims_kw=False),
         Recipe("flip_flop_index_angular", lambda rng: g_ff(rng, True), lambda x, **k: C.flip_flop_index(x[0], "t", is_angular=True), fixed=["t"], dims_kw=False, lazy=False),
     ]
